@@ -6,6 +6,7 @@
 //   hsv2rgb h s v / hsl2rgb h s l   (float32 bit patterns) -> r g b (rgb8)
 //   hueper hsv|hsl <s> <v|l>   rgb8 of (hue 0, s, v) | rgb8 of (hue 1, s, v)
 //   ga <g> <a>              gray_alpha8 -> rgba8, gray_alpha8 -> rgb8, gray_alpha8 -> gray8, gray8 -> rgba8 (toolbox gray_to_rgba):  r g b a | r g b | y | r g b a
+//   gax <sd> <td> <g> <a>  the same four conversions from depth sd in {8,16,32f} to depth td (float32 values as bit patterns)
 //   lumd <r> <g> <b>        double channels r/255 g/255 b/255 -> gray double (toolbox rgb_to_luminance): 64-bit pattern, then core rgb8 -> gray8:  <bits> <y8>
 #include <boost/gil.hpp>
 #include <boost/gil/extension/toolbox/color_spaces.hpp>
@@ -44,6 +45,21 @@ static void via_cmyka(int r, int g, int b, int c[5], int back[4]) {
     gil::cmyka8_pixel_t ka(k[0], k[1], k[2], k[3], 255); gil::rgba8_pixel_t q; gil::color_convert(ka, q);
     for (int i = 0; i < 5; ++i) c[i] = ka[i];
     for (int i = 0; i < 4; ++i) back[i] = q[i];
+}
+
+// depth-changing gray_alpha -> rgba / rgb / gray and gray -> rgba: channel values as integers (8, 16) or float32 bit patterns (32f)
+template <typename C> struct cio { static C make(long long v) { return C(v); } static long long show(C const& c) { return (long long)c; } };
+template <> struct cio<gil::float32_t> {
+    static gil::float32_t make(long long v) { return gil::float32_t(f_of((unsigned long long)v)); }
+    static long long show(gil::float32_t const& c) { return (long long)b_of(float(c)); } };
+template <typename GA, typename G, typename RGBA, typename RGB, typename GD> std::string gax(long long g, long long a) {
+    using S = typename gil::channel_type<GA>::type; using T = typename gil::channel_type<RGBA>::type;
+    GA p(cio<S>::make(g), cio<S>::make(a)); RGBA q; RGB q3; GD q1; RGBA q4;
+    gil::color_convert(p, q); gil::color_convert(p, q3); gil::color_convert(p, q1);
+    G gp(cio<S>::make(g)); gil::color_convert(gp, q4);
+    auto sh = [](T const& c) { return std::to_string(cio<T>::show(c)); };
+    return sh(q[0]) + " " + sh(q[1]) + " " + sh(q[2]) + " " + sh(q[3]) + " | " + sh(q3[0]) + " " + sh(q3[1]) + " " + sh(q3[2]) + " | " + sh(q1[0]) + " | " +
+           sh(q4[0]) + " " + sh(q4[1]) + " " + sh(q4[2]) + " " + sh(q4[3]);
 }
 
 enum space { HSV, HSL, XYZ, LAB, Y601, Y709, CMYKA, NONE };
@@ -125,6 +141,17 @@ int main() {
             return std::to_string(q[0]) + " " + std::to_string(q[1]) + " " + std::to_string(q[2]) + " " + std::to_string(q[3]) + " | " +
                    std::to_string(q3[0]) + " " + std::to_string(q3[1]) + " " + std::to_string(q3[2]) + " | " + std::to_string(q1[0]) + " | " +
                    std::to_string(q4[0]) + " " + std::to_string(q4[1]) + " " + std::to_string(q4[2]) + " " + std::to_string(q4[3]);
+        }
+        if (w.size() == 5 && w[0] == "gax") {
+            long long g = hv::to_ll(w[3]), a = hv::to_ll(w[4]);
+#define GAX(sn, GA, G, tn, RGBA, RGB, GD) if (w[1] == sn && w[2] == tn) return gax<GA, G, RGBA, RGB, GD>(g, a);
+#define GAXS(sn, GA, G) GAX(sn, GA, G, "8", gil::rgba8_pixel_t, gil::rgb8_pixel_t, gil::gray8_pixel_t) \
+                        GAX(sn, GA, G, "16", gil::rgba16_pixel_t, gil::rgb16_pixel_t, gil::gray16_pixel_t) \
+                        GAX(sn, GA, G, "32f", gil::rgba32f_pixel_t, gil::rgb32f_pixel_t, gil::gray32f_pixel_t)
+            GAXS("8", gil::gray_alpha8_pixel_t, gil::gray8_pixel_t) GAXS("16", gil::gray_alpha16_pixel_t, gil::gray16_pixel_t) GAXS("32f", gil::gray_alpha32f_pixel_t, gil::gray32f_pixel_t)
+#undef GAXS
+#undef GAX
+            return "bad-op";
         }
         if (w.size() == 4 && w[0] == "lumd") {
             int r = (int)hv::to_ll(w[1]), g = (int)hv::to_ll(w[2]), b = (int)hv::to_ll(w[3]);
